@@ -65,6 +65,23 @@ R = {
     "tab_copy_attrs": tiered(tables.tab_copy_attrs),
     "tab_bond_types": tiered(tables.tab_bond_types),
     "da_reader": named("da_reader", da.da_locals, READER_FUNCS, "DA.reader"),
+    "da_resolver": named("da_resolver", da.da_modules, ["resolve", "pysmiles_utils", "graph_utils", "cgsmiles_utils", "read_fragments", "dialects"], "DA.resolver"),
+    "da_sampler": named("da_sampler", da.da_modules, ["sample", "cgsmiles_utils"], "DA.sampler"),
+    "da_writer": named("da_writer", da.da_modules, ["write_cgsmiles"], "DA.writer"),
+    "da_rdkit": named("da_rdkit", da.da_modules, ["rdkit", "coordinates"], "DA.rdkit"),
+    "da_layout": named("da_layout", da.da_modules, ["graph_layout", "graph_layout_utils", "linalg_functions"], "DA.layout",
+                       only={"graph_layout": ["graph_layout:vespr_layout"]}),
+    "key_layout": tiered(keys.key_layout),
+    "ring_marker_text": tiered(ring.ring_marker_text),
+    "tt_layer_format": tiered(extra.tt_layer_format),
+    "prov_sampler_setup": tiered(sampler.prov_sampler_setup),
+    "da_self_attrs_sampler": named("da_self_attrs_sampler", da.da_self_attrs, [("sample", "MoleculeSampler")]),
+    "da_self_attrs_resolver": named("da_self_attrs_resolver", da.da_self_attrs, [("resolve", "MoleculeResolver")]),
+    "ord_complete_loops_mass": named("ord_complete_loops_mass", extra.ord_complete_loops, "quick", extra.COMPLETE_LOOPS_MASS),
+    "ord_complete_loops_rdkit": named("ord_complete_loops_rdkit", extra.ord_complete_loops, "quick", extra.COMPLETE_LOOPS_RDKIT),
+    "tt_relative_dispatch": tiered(prov.tt_relative_dispatch),
+    "exc_raise_inventory": tiered(exc.exc_raise_inventory),
+    "prov_slash_marks": tiered(extra.prov_slash_marks),
     "da_globals_rdkit": named("da_globals_rdkit", da.da_globals, ["rdkit", "coordinates"], "DA.globals"),
     "da_globals_reader": named("da_globals_reader", da.da_globals, ["read_cgsmiles", "dialects"], "DA.globals"),
     "prov_growth_edge": tiered(sampler.prov_growth_edge),
@@ -138,32 +155,32 @@ EXPL = ("Static analysis of /repo's current source, nothing is executed: ast, ha
         "canonical access paths, abstract evaluation of small predicates over finite domains, effect summaries, emission models. "
         "Each obligation is a necessary structural clause of the property; the behaviour as a whole is not decided.")
 
-prop("C01", ["prov_bond_edge", "tok_rules", "ord_resolve_phases", "sib_atomistic_level", "prov_copy_complete", "ord_complete_loops", "prov_hcount_bookkeeping", "ord_hydrogens"],
+prop("C01", ["da_self_attrs_resolver", "da_resolver", "prov_bond_edge", "tok_rules", "ord_resolve_phases", "sib_atomistic_level", "prov_copy_complete", "ord_complete_loops", "prov_hcount_bookkeeping", "ord_hydrogens"],
      "the cut bond's order travels from descriptor to bond (int(d[-1]) / 1.5 iff both ends aromatic); a bond-order symbol is consumed by exactly "
      "one thing in the fragment tokenizer (ring digits and atoms clear the pending order); phase order instantiate < connect < squash < hydrogens < sort; "
      "reader and resolver agree on which level is atomistic; fragment copies are complete",
      "equality with the original molecule: hydrogen counts, aromatic orders, charges come from pysmiles; choice of descriptor pair is data dependent",
-     floors={"PROV.hcount-bookkeeping": 2, "ORD.complete-loops": 11, "PROV.bond-order": 1, "TOK.T2-ring": 2, "TOK.T3-atom": 4, "TOK.invariant": 1, "ORD.resolve-phases": 10, "SIB.S4-atomistic-level": 4})
+     floors={"DA.self-attrs": 7, "DA.resolver": 37, "PROV.hcount-bookkeeping": 2, "ORD.complete-loops": 19, "PROV.bond-order": 1, "TOK.T2-ring": 2, "TOK.T3-atom": 4, "TOK.invariant": 1, "ORD.resolve-phases": 10, "SIB.S4-atomistic-level": 4})
 prop("C02", ["key_fragid", "prov_annotate_lookup", "ord_resolve_annotate", "tab_copy_attrs", "prov_h_inherit", "prov_copy_complete", "prov_squash", "ord_complete_loops"],
      "membership is written in the key space it is read in; annotate_fragments files each fine node under the coarse keys it records; the per-node graphs "
      "are derived after sorting and after the last change of the fine node set; hydrogens inherit fragid/fragname/weight from their heavy atom; "
      "merge_graphs copies all nodes, edges and attributes of a template",
      "isomorphism of each block with its template after squashing and hydrogen completion; content of 'mapping'",
-     floors={"ORD.complete-loops": 11, "PAIR.squash-membership": 1, "KEY.K1-fragid": 1, "PROV.annotate-lookup": 3, "ORD.resolve-annotate": 6, "TAB.copy_attrs": 3, "PROV.h-inherit": 3, "PROV.copy-complete": 5})
+     floors={"ORD.complete-loops": 19, "PAIR.squash-membership": 1, "KEY.K1-fragid": 1, "PROV.annotate-lookup": 3, "ORD.resolve-annotate": 6, "TAB.copy_attrs": 3, "PROV.h-inherit": 3, "PROV.copy-complete": 5})
 prop("C03", ["tt_compatible", "prov_matcher_shape", "who_may_bond", "prov_matcher_args", "trip_bond_loop",
              "pair_resolver_consume", "prov_bond_edge", "sent_order_zero", "ord_complete_loops", "det_shared_state_resolver", "prov_option_forwarding"],
      "compatibility truth table over 320 abstract states; matcher shape; sole bond site; matcher arguments are the two ends of the iterated base-graph edge; "
      "loop trip count = edge order from 0; consume-on-use pairing on every path; provenance of endpoints, recorded pair and order",
      "'exactly that many' bonds depends on first-match search order over runtime lists",
-     floors={"PROV.option-forwarding": 8, "ORD.complete-loops": 11, "SENT.order-zero": 20, "TT.compatible": 1, "PROV.matcher-shape": 4, "OWN.sole-bond-site": 1, "PROV.matcher-args": 1,
+     floors={"PROV.option-forwarding": 8, "ORD.complete-loops": 19, "SENT.order-zero": 20, "TT.compatible": 1, "PROV.matcher-shape": 4, "OWN.sole-bond-site": 1, "PROV.matcher-args": 1,
              "PROV.legacy-forwarded": 2, "TRIP.bond-loop": 3, "PAIR.resolver-consume": 3, "PROV.bond-edge": 2, "PROV.bond-order": 1})
-prop("C04", ["tab_reader_symbols", "da_reader", "da_globals_reader", "sib_ring_handlers", "prov_node_attributes", "sent_order_zero", "prov_after_branch_order"],
+prop("C04", ["ring_marker_text", "exc_raise_inventory", "tab_reader_symbols", "da_reader", "da_globals_reader", "sib_ring_handlers", "prov_node_attributes", "sent_order_zero", "prov_after_branch_order"],
      "a sliver: the reader's symbol table equals the documented one and its guard admits every symbol; no possibly-unbound local on a feasible path of the "
      "reader functions; the %nn and digit ring handlers perform the same open/close protocol; a ring bond joins opening and closing node with the order "
      "written at the opening marker and the pending ring order is reset after every marker; node attributes come from the node's own text",
      "whether nodes, edges and orders are the ones the grammar denotes: index arithmetic over the pattern string (simultaneous branch closings, "
      "unbounded %nn digits) has no structural witness in reach",
-     floors={"PROV.after-branch-order": 2, "SENT.order-zero": 20, "TAB.reader-symbols": 2, "DA.reader": 5, "SIB.S2-ring-handlers": 3, "PROV.ring-edges": 5, "PROV.node-attributes": 4})
+     floors={"TOK.ring-marker-text": 1, "EXC.raise-inventory": 6, "PROV.after-branch-order": 2, "SENT.order-zero": 20, "TAB.reader-symbols": 2, "DA.reader": 5, "SIB.S2-ring-handlers": 3, "PROV.ring-edges": 5, "PROV.node-attributes": 4})
 prop("C05", ["da_reader", "trip_multiplier", "sib_multiplier_scans", "sent_anchor_key", "sent_order_zero", "prov_after_branch_order"],
      "definite assignment in the branch expansion block (base_anchor); trip counts of node loop, recipe entries, _expand_branch and the branch loop "
      "(multiplier - 1); both multiplier number scans stop at the same token set including the order symbols",
@@ -174,18 +191,18 @@ prop("C06", ["sib_atomistic_level", "ord_resolve_handover", "sib_drivers", "ord_
      "level dictionary, counter advanced once after last use; resolve_iter / resolve_all only delegate",
      "isomorphism with the flattened two-level string; per-step guarantees are decided under C02/C03",
      floors={"OWN.fresh-fragment": 2, "ORD.resolve-phases": 10, "SIB.S4-atomistic-level": 4, "ORD.resolve-handover": 4, "SIB.S7-drivers": 3, "PROV.level-index": 1, "ORD.counter": 1})
-prop("C07", ["tab_writer_symbols", "emit_write_graph", "prov_ring_edges", "sent_order_zero", "prov_option_forwarding", "prov_after_branch_order"],
+prop("C07", ["da_writer", "tab_writer_symbols", "emit_write_graph", "prov_ring_edges", "sent_order_zero", "prov_option_forwarding", "prov_after_branch_order"],
      "writer table restricted to 0..4 is the inverse of the reader's table and the documented one; per-node and per-ring emission words over all "
      "guard assignments: tree-edge symbol present iff needed and placed where the reader of that format looks (before '(' in CGsmiles, inside in "
      "OpenSMILES), ring symbol immediately before a new marker iff needed, independent of the node-format flag",
      "that the reader reconstructs the graph from a string of the documented language (C04), DFS and ring-marker allocation, more than 9 open rings",
-     floors={"EMIT.marker-order": 1, "PROV.ring-marker": 2, "PROV.ring-edges": 5, "TAB.writer-symbols": 2, "EMIT.write_graph": 2, "SIB.S5-format-flag": 1})
-prop("C08", ["emit_format_bonding", "tab_fragment_symbols", "tok_rules", "emit_write_graph", "prov_option_forwarding"],
+     floors={"DA.writer": 6, "EMIT.marker-order": 1, "PROV.ring-marker": 2, "PROV.ring-edges": 5, "TAB.writer-symbols": 2, "EMIT.write_graph": 2, "SIB.S5-format-flag": 1})
+prop("C08", ["tt_layer_format", "da_writer", "emit_format_bonding", "tab_fragment_symbols", "tok_rules", "emit_write_graph", "prov_option_forwarding"],
      "format_bonding only ever extends its accumulator and writes SYM? '[' descriptor[:-1] ']' per descriptor with the symbol of its own order for "
      "orders 0, 2, 3, 4; the fragment reader maps every written symbol back to its order; the tokenizer's descriptor rules incl. `is not None` for the pending order",
      "equality of the re-read fragment graphs (pysmiles writes and parses the atoms); coarse fragments are written with the fragment's name in place of "
      "each node's own name (seen while reading, outside the rules)",
-     floors={"EMIT.write_graph": 2, "EMIT.format_bonding": 4, "TAB.fragment-symbols": 1, "SENT.pending-order": 1, "TOK.T5-descriptor": 6})
+     floors={"TT.layer-format": 1, "DA.writer": 6, "EMIT.write_graph": 2, "EMIT.format_bonding": 4, "TAB.fragment-symbols": 2, "SENT.pending-order": 1, "TOK.T5-descriptor": 6})
 prop("C09", ["ord_resolve_phases", "ord_sample_finalise", "ord_hydrogens", "tab_copy_attrs", "prov_h_inherit", "sent_numeric_attrs", "ord_complete_loops", "own_templates_sampler", "prov_hcount_bookkeeping"],
      "every all-atom path of resolver and sampler passes the hydrogen rebuild after the last connectivity change and before renumbering; inside the rebuild: "
      "reset hcount to 0 < fill_valence(respect_hcount=False) < add_explicit_hydrogens, aromatic correction < fill; keep_bonding unused; hydrogens inherit attributes",
@@ -195,7 +212,7 @@ prop("C10", ["prov_squash", "ord_resolve_phases", "prov_bond_edge", "tt_compatib
      "contraction exactly for '!' pairs (truth table over kinds); merged nodes are the bond's endpoints followed through earlier merges, the removed node is "
      "recorded; self_loops=False; result assigned back; kept node's fragid/mapping extended on every path; connect < squash < hydrogens; the pair is recorded on the bond",
      "equivalence with the disjoint description; aromaticity and hydrogen refill on the merged graph",
-     floors={"TT.compatible": 1, "PROV.squash-protocol": 6, "PAIR.squash-membership": 1, "ORD.resolve-phases": 10})
+     floors={"PROV.squash-one-atom": 1, "TT.compatible": 1, "PROV.squash-protocol": 6, "PAIR.squash-membership": 1, "ORD.resolve-phases": 10})
 prop("C11", ["trip_bond_loop", "exc_missing_fragment", "key_fragid", "sent_order_zero", "prov_annotate_lookup"],
      "range(0, order) bounds bonds per edge (none for order 0); a fragment-less node is skipped only if all incident orders are 0, else SyntaxError, and "
      "creates no fine nodes; skipping a node does not shift the membership of the others",
@@ -208,49 +225,49 @@ prop("C12", ["own_templates_resolver", "own_mutable_defaults", "det_resolver", "
      "fragment dictionaries are only accessed by key; atom names are element + position within the coarse node's atom list",
      "contiguity of blocks; determinism of pysmiles itself is assumed; shared atoms are named once per coarse node they belong to",
      floors={"DET.shared-state": 15, "OWN.templates-resolver": 10, "OWN.mutable-defaults": 8, "DET.resolver": 15, "SIB.S1-constructors": 9, "PROV.sort-key": 4, "PROV.fragdict-by-key": 2, "PROV.atom-names": 2})
-prop("C13", ["tok_rules", "tab_dialects"],
+prop("C13", ["tok_rules", "tab_dialects", "tab_fragment_symbols"],
      "dispatch map and per-branch effects of the tokenizer: T0 text conservation, T1 symbols set the pending order, T2 ring digits go to the previous atom "
      "and clear the pending order, T3 atoms advance (previous := counter; counter += 1) and clear it, annotations under the pre-increment index, T4 "
      "branch stack, T5 descriptor text / atom / order sources / consume, T6 slashes, and the invariant over admissible token successions",
      "anything about the cleaned text being valid SMILES; `( symbol descriptor )` leaves an empty branch",
-     floors={"TOK.T0-conservation": 3, "TOK.T1-symbol": 1, "TOK.T2-ring": 2, "TOK.T3-atom": 6, "TOK.T4-branch": 2, "TOK.T5-descriptor": 8,
+     floors={"TAB.fragment-symbols": 2, "TOK.T0-conservation": 3, "TOK.T1-symbol": 1, "TOK.T2-ring": 2, "TOK.T3-atom": 6, "TOK.T4-branch": 2, "TOK.T5-descriptor": 8,
              "TOK.T6-slash": 1, "TOK.invariant": 1, "SENT.pending-order": 1})
 prop("C14", ["tab_dialects", "ord_parse_pipeline", "prov_node_attributes", "prov_copy_complete", "exc_annotations", "prov_h_inherit", "sent_numeric_attrs", "ord_complete_loops", "sent_annotation_value", "prov_fragment_attrs"],
      "both dialect signatures, defaults, types, rename maps equal the documented table; bind < cast < defaults, cast < rename, cast keyed by name over all "
      "bound arguments; base-graph node attributes come from the node's own text (also for multiplied copies and recipes); fragment copies keep all attributes",
      "numeric spellings (python's float); `q=` at the coarse-fragment level is parsed by the atomistic dialect (seen while reading, outside the rules)",
      floors={"SENT.annotation-value": 2, "PROV.fragment-attrs": 2, "SENT.numeric-attribute": 30, "SENT.attribute-value": 1, "TAB.dialects": 3, "ORD.parse-pipeline": 6, "PROV.node-attributes": 4, "PROV.copy-complete": 5})
-prop("C15", ["ord_resolve_stereo", "prov_relative_attr", "tok_rules", "prov_copy_complete"],
+prop("C15", ["tt_relative_dispatch", "prov_slash_marks", "ord_resolve_stereo", "prov_relative_attr", "tok_rules", "prov_copy_complete"],
      "the cis/trans annotation runs after the last relabelling and after hydrogens exist, on the relabelled graph; node-referencing attributes are "
      "remapped through the relabelling map and shifted on merge; slash marks are recorded for the atoms around them; chirality annotations are copied",
      "the cis/trans relation itself (pysmiles' _annotate_ez_isomers)",
-     floors={"ORD.resolve-stereo": 3, "PROV.relative-attr": 3, "TOK.T6-slash": 1})
-prop("C16", ["tt_complement", "prov_growth_edge", "prov_open_bonds", "own_templates_sampler", "ord_sample_finalise", "prov_sort_key", "det_shared_state_sampler"],
+     floors={"TT.relative-dispatch": 1, "PROV.slash-marks": 4, "ORD.resolve-stereo": 3, "PROV.relative-attr": 3, "TOK.T6-slash": 1})
+prop("C16", ["prov_sampler_setup", "da_self_attrs_sampler", "da_sampler", "tt_complement", "prov_growth_edge", "prov_open_bonds", "own_templates_sampler", "ord_sample_finalise", "prov_sort_key", "det_shared_state_sampler"],
      "complementarity relation over 160 abstract states; growth step: one merge and one bond on every path, bond between chosen site atom and the copy of "
      "the partner's atom, order and recorded pair from the chosen descriptors, both descriptors consumed on their own atoms; templates are never mutated "
      "and their attribute values never shared into the molecule; the open-descriptor index is rebuilt from the molecule before every step and files each "
      "atom under its own descriptors, the fragment index maps a descriptor to (fragment, atom) carrying it; finalisation order",
      "connectedness / tree shape follow by induction that is not mechanised; valence completeness as C09",
-     floors={"TT.complement": 1, "PROV.growth-edge": 6, "PAIR.sampler-consume": 2, "PROV.open-bonds": 6, "OWN.templates-sampler": 5, "ORD.sample-finalise": 5})
-prop("C17", ["prov_stop_rule", "prov_weights", "tt_terminal_filter", "det_sampler", "ord_compute_mass", "det_shared_state_sampler"],
+     floors={"PROV.sampler-setup": 7, "DA.self-attrs": 7, "DA.sampler": 9, "TT.complement": 1, "PROV.growth-edge": 6, "PAIR.sampler-consume": 2, "PROV.open-bonds": 6, "OWN.templates-sampler": 5, "ORD.sample-finalise": 5})
+prop("C17", ["prov_sampler_setup", "da_self_attrs_sampler", "ord_complete_loops_mass", "da_sampler", "prov_stop_rule", "prov_weights", "tt_terminal_filter", "det_sampler", "ord_compute_mass", "det_shared_state_sampler"],
      "stop rule `sum < target` strict, sum starts at 0 and grows by the added fragment's mass on every iteration; weights are probabilities.get(b, 0) over the "
      "same sequence, unweighted draw only without table; terminal filter truth table; every draw is random.* on ordered populations, seeded on every path "
      "from the seed parameter before any draw; mass = sum over the hydrogen-completed copy",
      "statistical properties; floating point normalisation",
-     floors={"DET.shared-state": 8, "PROV.stop-rule": 4, "PROV.weights": 3, "TT.terminal-filter": 2, "DET.sampler": 6, "ORD.compute-mass": 3})
-prop("C18", ["da_globals_rdkit", "key_rdkit", "norm_bead", "tab_bond_types", "prov_rdkit_attrs"],
+     floors={"PROV.sampler-setup": 7, "DA.self-attrs": 7, "ORD.complete-loops": 1, "DA.sampler": 9, "DET.shared-state": 8, "PROV.stop-rule": 4, "PROV.weights": 3, "TT.terminal-filter": 2, "DET.sampler": 6, "ORD.compute-mass": 3})
+prop("C18", ["ord_complete_loops_rdkit", "da_rdkit", "da_globals_rdkit", "key_rdkit", "norm_bead", "tab_bond_types", "prov_rdkit_attrs"],
      "no unresolved global name in rdkit.py / coordinates.py; node keys, RDKit atom indices and counters are never mixed without a map; bead position = "
      "weighted sum over the bead's own atoms / sum of those weights; bond type table; element, charge, hydrogen count and bond order are carried by both conversions",
      "everything RDKit computes (sanitisation, embedding, distances)",
-     floors={"DA.globals": 2, "KEY.K2-rdkit": 5, "NORM.bead": 3, "TAB.bond-types": 1, "PROV.rdkit-attrs": 8})
-prop("C19", ["norm_scale", "own_mutable_defaults_layout", "own_layout_input"],
+     floors={"ORD.complete-loops": 7, "DA.rdkit": 5, "DA.globals": 2, "KEY.K2-rdkit": 5, "NORM.bead": 3, "TAB.bond-types": 1, "PROV.rdkit-attrs": 8})
+prop("C19", ["da_layout", "key_layout", "norm_scale", "own_mutable_defaults_layout", "own_layout_input"],
      "mean bond length = sum of end-point distances over all edges / number of edges; every position multiplied by default_bond / mean; only isometries "
      "may write positions afterwards; the rescaled dict is returned",
      "finiteness, non-coincidence of bonded nodes, independence from labelling: numerical properties of networkx' optimisers",
-     floors={"OWN.layout-input": 1, "OWN.mutable-defaults": 2, "NORM.scale": 2, "ORD.scale-last": 2})
-prop("C20", ["exc_dangling_ring", "sib_ring_handlers", "exc_duplicate_edge", "exc_missing_fragment", "exc_annotations", "exc_handlers", "tab_dialects"],
+     floors={"DA.layout": 21, "KEY.K3-layout": 4, "OWN.layout-input": 1, "OWN.mutable-defaults": 2, "NORM.scale": 2, "ORD.scale-last": 2})
+prop("C20", ["da_resolver", "exc_dangling_ring", "sib_ring_handlers", "exc_duplicate_edge", "exc_missing_fragment", "exc_annotations", "exc_handlers", "tab_dialects"],
      "each documented fault has a raise site of the documented type whose guard dominates the success exit; the open-ring table is written only by the two "
      "identical handlers; no handler between fault site and API swallows or retypes the error; numeric keys are declared float",
      "that the scanner reaches the fault wherever it is placed (C04's undecided part)",
-     floors={"EXC.X1-dangling-ring": 1, "SIB.S2-ring-handlers": 3, "EXC.X2-duplicate-edge": 2, "EXC.X3-missing-fragment": 3,
+     floors={"DA.resolver": 37, "EXC.X1-dangling-ring": 1, "SIB.S2-ring-handlers": 3, "EXC.X2-duplicate-edge": 2, "EXC.X3-missing-fragment": 3,
              "EXC.X4-annotations": 6, "EXC.handlers": 8})
